@@ -614,6 +614,12 @@ impl Run<'_> {
                 timeout: Duration::from_millis(SHORT_MS),
             },
             Mode::Forced => ShutdownMode::Forced,
+            Mode::Unbounded => ShutdownMode::Graceful {
+                timeout: Duration::MAX,
+            },
+            Mode::Huge => ShutdownMode::Graceful {
+                timeout: Duration::from_secs(u64::MAX / 4),
+            },
         };
         let tx = self.h.tx.clone();
         let epoch = self.epoch;
